@@ -52,7 +52,7 @@ var c12Positions = []struct {
 }
 
 func init() {
-	floor := []string{"item.async", "item.async-union", "item.async-cte", "item.async-multidim", "item.once-multidim", "item.async-derived", "item.cte-dual-star", "item.fuse-dual-star", "item.fuse", "item.fuse-alias", "item.setvar", "item.async-derived-object", "item.async-derived-value", "item.async-join-operand", "item.cte-by-name", "item.fuse-async", "item.marker", "item.await-marker", "reexec.after-fault", "group.mixed-keys", "join.limit", "rich", "parjoin"}
+	floor := []string{"item.async", "item.async-union", "item.async-cte", "item.async-multidim", "item.once-multidim", "item.async-derived", "item.cte-dual-star", "item.fuse-dual-star", "item.fuse", "item.fuse-alias", "item.setvar", "item.async-derived-object", "item.async-derived-value", "item.agg-all-null", "item.option-flip", "item.async-join-operand", "item.cte-by-name", "item.fuse-async", "item.marker", "item.await-marker", "reexec.after-fault", "group.mixed-keys", "join.limit", "rich", "parjoin"}
 	for _, f := range c12Forms {
 		floor = append(floor, "form."+f.name)
 	}
@@ -227,12 +227,19 @@ func c12Matrix(c *fw.Case) {
 		d = newRichDoc(c)
 	}
 	nf, np := len(c12Forms), len(c12Positions)
-	cell := c.Idx % (nf*np + 58)
+	cell := c.Idx % (nf*np + 64)
 	if cell >= nf*np {
 		// special select items
 		var sql string
 		var feat string
-		switch (cell - nf*np) % 29 {
+		switch (cell - nf*np) % 32 {
+		case 29:
+			// aggregates over a column that is NULL or missing in every row
+			sql, feat = gen.Pick(c.R, []string{"SELECT AVG(nokey) AS a, SUM(nokey) AS s, MIN(nokey) AS m, COUNT(*) AS n FROM t1", "SELECT s1, AVG(nokey) AS a, MAX(nokey) AS m FROM t1 GROUP BY s1",
+				"SELECT AVG(y.nokey) AS a FROM t1 x LEFT JOIN u1 y ON x.n1 = y.un1", "SELECT b1, AVG(z1) AS a FROM t1 WHERE z1 IS NULL GROUP BY b1"}), "item.agg-all-null"
+		case 30, 31:
+			c12OptionFlip(c, d)
+			return
 		// a derived table's (or CTE's) async column used by value in the outer
 		// query: as a function argument, in WHERE, as a grouping key, in arithmetic
 		case 24:
@@ -456,5 +463,44 @@ func c12JoinLimit(c *fw.Case) {
 	c.Evals(1 + R)
 	if len(first.Rows) >= 1 {
 		c.Nontrivial(sql + "|" + val.Canon(doc))
+	}
+}
+
+
+// c12OptionFlip: the same query text evaluated under an option set, then under
+// another (which gives the text another meaning, or makes it an error), then
+// under the first again - with many other statements in between: evaluating
+// the same query again on an equal input yields equal rows whatever the
+// process evaluated meanwhile.
+func c12OptionFlip(c *fw.Case, d *richDoc) {
+	sql := gen.Pick(c.R, []string{"SELECT \"s1\" AS a, rid FROM t1", "SELECT rid, [1, 2] AS b FROM t1 WHERE n1 >= 0", "SELECT \"rid\" AS r, [\"s1\", 'x'] AS b FROM t1", "SELECT rid FROM t1 WHERE \"s1\" != 'zz'"})
+	with := OptSet{PG: strings.Contains(sql, "\""), Idiomatic: strings.Contains(sql, "[")}
+	other := OptSet{PG: !with.PG && c.Chance(0.5), Idiomatic: with.PG && with.Idiomatic && c.Chance(0.5)}
+	first := Run(d.fresh(), sql, with.Options()...)
+	c.Feature("item.option-flip")
+	if !first.OK() {
+		c.Discard("query rejected under its own options")
+		return
+	}
+	// enough distinct statements, before or after the other reading, to turn
+	// over any bounded cache of statements
+	filler := func(n int) {
+		for i := 0; i < n; i++ {
+			_ = Run(map[string]any{"t1": []any{}}, fmt.Sprintf("SELECT %d AS x, %d AS y FROM t1", i, c.Idx))
+		}
+	}
+	filler(gen.Pick(c.R, []int{0, 600, 600, 1100}))
+	_ = Run(d.fresh(), sql, other.Options()...)
+	filler(gen.Pick(c.R, []int{0, 0, 3, 600}))
+	again := Run(d.fresh(), sql, with.Options()...)
+	c.Evals(3)
+	c.Sample(map[string]any{"sql": sql, "options": with.Names(), "other_options": other.Names()})
+	if !again.OK() || !val.SameSeq(first.Rows, again.Rows) {
+		c.Violate("nondeterministic", fmt.Sprintf("the same text under the same options returned %s, then - after the text had been evaluated under %v - %s", short(val.Canon(first.Rows), 200), other.Names(), short(fmt.Sprint(again.Describe()), 200)),
+			map[string]any{"sql": sql, "options": with.Names(), "other_options": other.Names(), "doc": d.doc, "first": first.Describe(), "again": again.Describe()})
+		return
+	}
+	if len(first.Rows) > 0 {
+		c.Nontrivial(sql + val.Canon(d.doc))
 	}
 }
